@@ -1,14 +1,116 @@
-"""Counterexample producers: obligation -> concrete input for the real code (filled per unit)."""
+"""Counterexample producers: a failed Verus obligation -> a concrete input for the real code.
+
+Verus gives no counterexample.  Units that have a paired Kani family (fixed-length symbolic arrays on
+the real crate asserting the same postcondition) get one from `cargo kani --concrete-playback=print`;
+the input is then executed against the real crates by /verif/replay (normal toolchain, debug profile)
+and only a reproduced failure is reported as a failing input.
+"""
 import os
+import re
 import json
+import shutil
 import subprocess
+from concurrent.futures import ThreadPoolExecutor
+
+from . import kani
 
 ROOT = os.path.dirname(os.path.dirname(os.path.abspath(__file__)))
+REPO = os.environ.get("VX_REPO", "/repo")
+RDIR = os.path.join(ROOT, "replay")
+
+# obligation-id regex -> (kani family, how to turn playback values into the replay argument)
+PAIRS = [
+    (re.compile(r"^u2f::From<u8> for AuthenticationParameter::from::safety$"), "u2f_param_cex"),
+    (re.compile(r"^u2f::.*::safety$"), "u2f_cex"),
+    (re.compile(r"^u2f::.*Request::try_from::ensures#(register|authenticate|version)$"), "u2f_wf"),
+    (re.compile(r"^u2f::.*::ensures#"), "u2f_wf"),
+]
+
+
+def build_replay():
+    lock = os.path.join(REPO, "Cargo.lock")
+    if os.path.exists(lock):
+        shutil.copy(lock, os.path.join(RDIR, "Cargo.lock"))
+    p = subprocess.run(["cargo", "build", "--offline"], cwd=RDIR, capture_output=True, text=True,
+                       env=dict(os.environ, CARGO_NET_OFFLINE="true"))
+    if p.returncode != 0:
+        raise RuntimeError("replay crate does not build: " + p.stderr[-800:])
+    return os.path.join(RDIR, "target", "debug", "pkreplay")
+
+
+def run_replay(entry, arg, timeout=120):
+    exe = build_replay()
+    try:
+        p = subprocess.run([exe, entry, arg], capture_output=True, text=True, timeout=timeout)
+    except subprocess.TimeoutExpired:
+        return {"entry": entry, "violates": True, "panicked": False, "detail": "timeout after %ds" % timeout}
+    out = p.stdout.strip().split("\n")[-1] if p.stdout.strip() else ""
+    try:
+        return json.loads(out)
+    except Exception:
+        # the process died (stack overflow, abort): that is itself the observation
+        return {"entry": entry, "violates": True, "panicked": True,
+                "detail": "process ended with status %s: %s" % (p.returncode, (p.stderr or "")[-300:])}
+
+
+def playback_bytes(out):
+    m = re.search(r"concrete_vals: Vec<Vec<u8>> = vec!\[(.*?)\];", out, re.S)
+    if not m:
+        return None
+    vals = []
+    for v in re.findall(r"vec!\[([0-9,\s]*)\]", m.group(1)):
+        vals.append([int(x) for x in v.replace(" ", "").split(",") if x != ""])
+    return vals
+
+
+_memo = {}
 
 
 def find_input(pid, o):
-    return None
+    fam = None
+    for rx, f in PAIRS:
+        if rx.search(o["id"]):
+            fam = f
+            break
+    if fam is None:
+        return None
+    if fam not in _memo:
+        _memo[fam] = _find_input_inner(fam)
+    return _memo[fam]
 
 
-def run_replay(entry, inp):
-    return {"violates": False, "note": "no replay entry"}
+def _find_input_inner(fam):
+    fams = kani.families()
+    F = fams[fam]
+
+    def one(h):
+        r = kani.run_harness(F["crate"], h["name"], F.get("flags", []), F.get("timeout", 600), playback=True)
+        return h, r
+    with ThreadPoolExecutor(max_workers=6) as ex:
+        outs = list(ex.map(one, F["harnesses"]))
+    tried = []
+    for h, r in outs:
+        pr = kani.parse(r["out"])
+        tried.append({"harness": h["name"], "verdict": pr["verdict"], "cmd": r["cmd"]})
+        if pr["verdict"] != "FAILED":
+            continue
+        vals = playback_bytes(r["out"])
+        if vals is None:
+            continue
+        fr = h.get("frame")
+        if fr:
+            flat = [v[0] for v in vals if len(v) == 1][:fr["len"]]
+            if len(flat) < fr["len"]:
+                continue
+            for k, v in fr["patch"].items():
+                flat[int(k)] = v
+            arg = "".join("%02x" % b for b in flat)
+        else:
+            continue
+        rep = run_replay(F["replay_entry"], arg)
+        if rep.get("violates"):
+            return {"input": arg, "entry": F["replay_entry"], "reproduced": True, "replay_result": rep,
+                    "kani_harness": h["name"], "kani_cmd": r["cmd"], "kani_failed_checks": pr.get("failed_descriptions"),
+                    "pair_tried": tried}
+        tried[-1]["replay"] = rep
+    return {"input": None, "pair_tried": tried, "reproduced": False}
